@@ -510,7 +510,23 @@ pub fn base_text(w: &Walker, cwd: &str, root_text: &str) -> String {
             format!("{}/{}", root_text, w.base)
         }
     };
+    // noise before the last component, only between two ordinary components below the world root
+    let odd = |text: String, kind: u8, floor: usize| -> String {
+        let comps: Vec<&str> = text.split('/').collect();
+        let n = comps.len();
+        if n < floor + 2 || comps[n - 1].is_empty() || comps[n - 2].is_empty() || comps[n - 1] == ".." || comps[n - 2] == ".." || comps[n - 2] == "." {
+            return text;
+        }
+        let head = comps[..n - 1].join("/");
+        match kind {
+            0 => format!("{}//{}", head, comps[n - 1]),
+            1 => format!("{}/./{}", head, comps[n - 1]),
+            _ => format!("{}/../{}/{}", head, comps[n - 2], comps[n - 1]),
+        }
+    };
     match w.spelling {
+        Spelling::Odd { absolute: true, kind } => odd(abs(), kind, root_text.split('/').count()),
+        Spelling::Odd { absolute: false, kind } => odd(rel(), kind, 0),
         Spelling::Absolute => abs(),
         Spelling::AbsoluteSlash => format!("{}/", abs()),
         Spelling::AbsoluteSlashDot => format!("{}/.", abs()),
@@ -838,7 +854,7 @@ pub fn execute(sc: &Scenario, world: &World, budget: &[usize]) -> Run {
                 let relative_alive = (0..its.len()).any(|wi| {
                     built[wi]
                         && its[wi].is_some()
-                        && !matches!(sc.walkers[wi].spelling, Spelling::Absolute | Spelling::AbsoluteSlash | Spelling::AbsoluteSlashDot)
+                        && !sc.walkers[wi].spelling.is_absolute()
                 });
                 if !relative_alive && std::env::set_current_dir(world.abs(&dir)).is_ok() {
                     *cur_cwd.borrow_mut() = dir.clone();
